@@ -117,6 +117,7 @@ type CertSpec struct {
 	Version1   bool // re-encode as X.509 v1 (drops extensions)
 	Extensions []pkix.Extension
 	UnknownEKU []asn1.ObjectIdentifier
+	EKU        []x509.ExtKeyUsage // registered extended key usages (serverAuth, anyExtendedKeyUsage, ...)
 	DNSNames   []string
 }
 
@@ -124,7 +125,7 @@ type CertSpec struct {
 func makeCert(pub crypto.PublicKey, s CertSpec) []byte {
 	tmpl := &x509.Certificate{SerialNumber: big.NewInt(time.Now().UnixNano()), Subject: s.Subject,
 		NotBefore: time.Now().Add(-time.Hour), NotAfter: time.Now().Add(240 * time.Hour),
-		IsCA: s.IsCA, BasicConstraintsValid: true, ExtraExtensions: s.Extensions, UnknownExtKeyUsage: s.UnknownEKU, DNSNames: s.DNSNames}
+		IsCA: s.IsCA, BasicConstraintsValid: true, ExtraExtensions: s.Extensions, UnknownExtKeyUsage: s.UnknownEKU, ExtKeyUsage: s.EKU, DNSNames: s.DNSNames}
 	if s.IsCA {
 		tmpl.KeyUsage = x509.KeyUsageCertSign
 	}
